@@ -88,6 +88,7 @@ func specSatU(v, hi uint64) uint64 {
 
 //@ func clampInt64
 //@ inline
+//@ requires minVal <= maxVal
 //@ ensures [below] v < minVal ==> result == minVal
 //@ ensures [above] minVal <= v && v > maxVal ==> result == maxVal
 //@ ensures [id]    minVal <= v && v <= maxVal ==> result == v
